@@ -49,6 +49,8 @@ def _stage_ab(ctx):
                 n += 1
                 if "err" in got:
                     ctx.violation(f"{row[1]}-raised", dict(case, exc=got["err"]))
+                elif got["ok"] is not None and not (isinstance(got["ok"], (tuple, list)) and len(got["ok"]) == 2):
+                    ctx.violation(f"{row[1]}-wrong", dict(case, got=str(got["ok"])[:100]))     # not a point at all
                 elif (None if got["ok"] is None else tuple(got["ok"])) != want:
                     ctx.violation(f"{row[1]}-wrong", dict(case, got=str(got["ok"])))
             # key generation for EVERY draw, private-key parsing for every 32-byte encoding of 0..n+1
@@ -82,6 +84,8 @@ def _stage_ab(ctx):
                 if valid != ("ok" in got):
                     ctx.violation("valid-privkey-refused" if valid else "invalid-privkey-accepted",
                                   {"stage": "B", "curve": cn, "op": "pubof", "key": v, "got": str(got)})
+                elif valid and not (isinstance(got["ok"], (tuple, list)) and len(got["ok"]) == 2):
+                    ctx.violation("pubkey-wrong", {"stage": "B", "curve": cn, "op": "pubof", "key": v, "got": str(got)[:100]})
                 elif valid and tuple(got["ok"]) != h_mul(c, v, G):
                     # h_mul only constructs the expectation here because the TLC rows above already tie k*G to the spec
                     row = next((x for x in rows if x[1] == "smul" and x[2] == v and _pt(x[3]) == G), None)
